@@ -1,0 +1,33 @@
+//go:build verif
+
+// Contracts added by the sweep (group ag4): packet source (C16) and renderers (C01).
+
+package gopacket
+
+// ---- PacketSource.NextPacket (C16): the decoded packet and its metadata exist -------------------------------------
+
+// Every packet implementation returns the address of its own metadata field (packet.Metadata, checked below;
+// pooledPacket forwards to the packet it wraps). NOTE: the engine checks implementers of an ifacecontract only against
+// its frame; the ensures is an assumption at invoke sites, justified by the checked contract of (*packet).Metadata.
+//@ ifacecontract Packet.Metadata() *PacketMetadata
+//@   props C16
+//@   ensures result != nil
+//@   modifies nothing
+
+//@ func (p *packet) Metadata() *PacketMetadata
+//@   props C16 C01
+//@   ensures result != nil
+//@   modifies nothing
+
+// ---- renderers (C01) --------------------------------------------------------------------------------------------------
+
+// Representation invariant of Endpoint (unexported fields; NewEndpoint establishes wfE, the zero value satisfies it).
+//@ func (a Endpoint) String() string
+//@   props C01 C17
+//@   requires 0 <= a.len && a.len <= 16
+
+// Representation invariant of DecodeFailure (unexported fields): it is only built by addFinalDecodeError, with the error
+// that a decoder returned or that was made from a recovered panic.
+//@ func (d *DecodeFailure) String() string
+//@   props C01
+//@   requires d.err != nil
